@@ -90,6 +90,50 @@ def cmd_import(src, k, sid):
     return 0
 
 
+def cmd_import_ref(src, k, sid):
+    """A behaviour-preserving change (false-alarm probe): must build and keep the suite green."""
+    patch = os.path.join(src, "change%s.diff" % k)
+    meta = os.path.join(src, "meta%s.json" % k)
+    for f in (patch, meta):
+        if not os.path.exists(f):
+            print("missing", f)
+            return 1
+    wt = "/tmp/seedval-%d" % os.getpid()
+    rc, out = sh(["git", "-C", "/repo", "worktree", "add", "-q", "--detach", wt, "HEAD"])
+    if rc != 0:
+        print(out)
+        return 1
+    try:
+        rc, out = sh(["git", "apply", patch], cwd=wt)
+        if rc != 0:
+            print("patch does not apply:\n", out)
+            return 1
+        rc, out = sh(["go", "build", "./..."], cwd=wt)
+        if rc != 0:
+            print("does not build:\n", out[-2000:])
+            return 1
+        rc, out = sh(["go", "test", "-vet=off", "-count=1", "./..."], cwd=wt)
+        if rc != 0:
+            print("existing suite fails with the change:\n", out[-2000:])
+            return 1
+    finally:
+        sh(["git", "-C", "/repo", "worktree", "remove", "--force", wt])
+        shutil.rmtree(wt, ignore_errors=True)
+    dst = os.path.join(SEEDED, sid)
+    os.makedirs(dst, exist_ok=True)
+    shutil.copy(patch, os.path.join(dst, "patch.diff"))
+    with open(meta) as f:
+        m = json.load(f)
+    m["id"] = sid
+    m["property"] = "none (behaviour-preserving change: every check must stay silent)"
+    m["kind"] = "refactoring"
+    m["validated"] = ["with change: go build ./... and go test ./... (existing suite) pass"]
+    with open(os.path.join(dst, "meta.json"), "w") as f:
+        json.dump(m, f, indent=1)
+    print("stored", dst)
+    return 0
+
+
 def repo_clean():
     rc, out = sh(["git", "-C", "/repo", "status", "--porcelain"])
     return out.strip() == ""
@@ -237,6 +281,8 @@ def cmd_matrix(args):
 
 
 if __name__ == "__main__":
+    if len(sys.argv) >= 5 and sys.argv[1] == "import-ref":
+        sys.exit(cmd_import_ref(sys.argv[2], sys.argv[3], sys.argv[4]))
     if len(sys.argv) >= 2 and sys.argv[1] == "matrix":
         sys.exit(cmd_matrix(sys.argv[2:]))
     if len(sys.argv) >= 5 and sys.argv[1] == "import":
